@@ -165,3 +165,13 @@ def targets_are_names(node, END):
 def gate_shape(node, END):
     """Object-model facts about gates: no data outputs (outputs are emit names only), targets are names or END."""
     return len(node.data_outputs) == 0 and targets_are_names(node, END) and distinct_names(node.outputs)
+
+
+def in_effective_selection(k, select, graph, UNSET):
+    """k may appear in the returned values: it is a declared output when everything is selected, else one of the
+    selected names (run-time select overrides the graph-level default)."""
+    return (
+        ((k in graph.outputs) if graph.selected is None else (k in graph.selected))
+        if select is UNSET
+        else ((k in graph.outputs) if select == "**" else ((k == select) if isinstance(select, str) else (k in select)))
+    )
